@@ -27,6 +27,18 @@ type Act struct {
 	// Damage: before this invocation the cache file of the project, if there is one, is left as an interrupted
 	// earlier run leaves it: truncated to half, empty, or overwritten with garbage
 	Damage string `json:"damage,omitempty"`
+	// Fsize (level L3 only): this invocation runs with a file size limit of so many bytes (exec.go FsizeLimit)
+	Fsize int `json:"fsize,omitempty"`
+}
+
+// WantsL3: cases with a file size limit are always executed against the real binary too.
+func (actScen) WantsL3(cc any) bool {
+	for _, a := range cc.(*ActCase).Actions {
+		if a.Fsize > 0 {
+			return true
+		}
+	}
+	return false
 }
 
 type actScen struct{}
@@ -136,6 +148,17 @@ func (actScen) Gen(r *Rng, cfg GenConfig) any {
 			c.Tree["sub/SPOKFILE"] = "task   shouting( ) {\n echo loud\n}\n"
 		}
 		c.Actions = append(c.Actions, a)
+	}
+	if cfg.Prop == "C19" && r.Chance(1, 10) {
+		// a full disk / exhausted quota strikes inside the writes of one invocation (level L3 only)
+		at := r.Intn(len(c.Actions))
+		c.Actions[at].Fsize = Pick(r, []int{1, 16, 64, 200, 1000})
+		switch r.Intn(4) {
+		case 0, 1:
+			c.Actions[at].Args = []string{"--fmt"}
+		case 2:
+			c.Actions[at].Args = []string{"--init"}
+		}
 	}
 	if cfg.Prop == "C19" && r.Chance(1, 8) {
 		// needs a cache to damage: put it after the first action and make that one a run from the project root
@@ -259,7 +282,12 @@ func (actScen) Exec(w *World, cc any, prop string) *Result {
 			}
 			res.count("probe:spokfile_named_on_command_line")
 		}
-		obs := w.Invoke(Invocation{Args: args, Cwd: cwd, Env: w.BaseEnv(), Inv: ai, Sched: c.Sched, Faults: NoFaults()})
+		faults := NoFaults()
+		if a.Fsize > 0 && w.Level == "L3" {
+			faults.FsizeLimit = a.Fsize
+			res.count("fault_fired:file_size_limit")
+		}
+		obs := w.Invoke(Invocation{Args: args, Cwd: cwd, Env: w.BaseEnv(), Inv: ai, Sched: c.Sched, Faults: faults})
 		res.Ops++
 		res.Steps += len(obs.Trace)
 		post := Snap(w.Home)
@@ -291,7 +319,7 @@ func (actScen) Exec(w *World, cc any, prop string) *Result {
 			// whatever name is accepted, --fmt may rewrite the file that was named and nothing else
 			allowed[relHome(named)] = true
 		case isFmt:
-			if useKind == "valid" || useKind == "demo" {
+			if useKind == "valid" || useKind == "demo" || useKind == "partial" {
 				allowed[relHome(filepath.Join(useDir, "spokfile"))] = true
 				if c.Symlink && useDir == "" {
 					allowed["shared/spokfile"] = true // writing through the link rewrites its target
@@ -354,6 +382,10 @@ func (actScen) Exec(w *World, cc any, prop string) *Result {
 		}
 		if isInit && !obs.Failed && !existsHere {
 			spokAt[cwdRel] = "demo"
+		} else if isInit && !existsHere {
+			if _, ok := post[initTarget]; ok {
+				spokAt[cwdRel] = "partial" // a failed --init left a (possibly incomplete) spokfile behind
+			}
 		}
 		existing := "fresh"
 		if _, ok := pre[cacheDir]; ok {
